@@ -17,7 +17,15 @@ type idxcRun struct {
 	prim krt.StaticCollection[Obj]
 	ic   krt.IndexCollection[string, Obj]
 	g    krt.Collection[Out]
+	// the same grouping, from a fixed set of tags through krt.FetchIndexObjects (a FetchOne by key on the index
+	// collection): must hold what `g` holds
+	h    krt.Collection[Out]
 	subs map[string]*subscriber
+}
+
+func (r *idxcRun) fetchedGroupsAgree() bool {
+	all := func(string) bool { return true }
+	return showEntries(r.g.List(), all) == showEntries(r.h.List(), all)
 }
 
 func newIdxcRun() runner {
@@ -49,6 +57,18 @@ func (r *idxcRun) start() {
 	r.g = krt.NewCollection[krt.IndexObject[string, Obj], Out](r.ic, func(ctx krt.HandlerContext, io krt.IndexObject[string, Obj]) *Out {
 		return &Out{Key: io.Key, Val: renderGroup(io.Objects)}
 	}, krt.WithStop(r.stop), krt.WithName("grouped"))
+	var tags []Out
+	for _, k := range outKeys {
+		tags = append(tags, Out{Key: k})
+	}
+	tagC := krt.NewStaticCollection[Out](nil, tags, krt.WithStop(r.stop), krt.WithName("tagnames"))
+	r.h = krt.NewCollection[Out, Out](tagC, func(ctx krt.HandlerContext, t Out) *Out {
+		objs := krt.FetchIndexObjects[string, Obj](ctx, r.ic, t.Key)
+		if len(objs) == 0 {
+			return nil
+		}
+		return &Out{Key: t.Key, Val: renderGroup(objs)}
+	}, krt.WithStop(r.stop), krt.WithName("fetched-groups"))
 }
 
 func (r *idxcRun) step(toks []string) (string, string) {
@@ -96,6 +116,9 @@ func (r *idxcRun) step(toks []string) (string, string) {
 	synctest.Wait()
 	switch {
 	case toks[0] == "list" && len(toks) == 1:
+		if !r.fetchedGroupsAgree() {
+			return "list inconsistent:FetchIndexObjects", line
+		}
 		return "list " + showEntries(r.g.List(), all), line
 	case toks[0] == "ilist" && len(toks) == 1:
 		var outs []Out
